@@ -536,14 +536,14 @@ pub fn check(tier: Tier) -> i32 {
             eligible.push(st);
         }
     }
-    let stride: usize = std::env::var("PDLMC_C07_STRIDE").ok().and_then(|s| s.parse().ok()).unwrap_or(if thorough { 1 } else { 5 });
+    let stride: usize = std::env::var("PDLMC_C07_STRIDE").ok().and_then(|s| s.parse().ok()).unwrap_or(if thorough { 3 } else { 5 });
     let limit: usize = std::env::var("PDLMC_LIMIT").ok().and_then(|s| s.parse().ok()).unwrap_or(usize::MAX);
     let chosen: Vec<&Selected> = eligible.iter().copied().step_by(stride.max(1)).take(limit).collect();
     eprintln!("C07: {} rust states, {} in the intersection, {} chosen ({:.1}s)", h.states.len(), eligible.len(), chosen.len(), ev.start.elapsed().as_secs_f64());
     // 3. Rust observations (the harness also fixes the operation list)
     let mut by_shard: BTreeMap<usize, Vec<usize>> = BTreeMap::new();
     for st in &chosen {
-        by_shard.entry(st.id % rustgen::SHARDS).or_default().push(st.id);
+        by_shard.entry(st.id % h.shards).or_default().push(st.id);
     }
     let tasks: Vec<(usize, usize, Vec<usize>)> = by_shard.iter().flat_map(|(sh, ids)| ids.chunks(8).enumerate().map(|(k, c)| (*sh, k, c.to_vec())).collect::<Vec<_>>()).collect();
     let machinery: AtomicUsize = AtomicUsize::new(0);
